@@ -133,7 +133,8 @@ def c07(case, diff, o, v):
     if case.get("dialect") != "non-validating" and kinds & _COMMENT_KINDS and diff == ["column_pairs"]:
         # KF-13: a sub-query inside a select item is re-analysed from its raw text by a nested sqlparse run, so comments
         # inside it change the columns found (tokens glued / mis-grouped as under KF-30c)
-        if _feat(case)["select_has_subquery"]:
+        # (the nested run is the legacy analyzer: the comment has to be glued to a word character, as under KF-30c)
+        if _feat(case)["select_has_subquery"] and _re.search(r"[\w\"'`\]]/\*|\*/[\w\"'`\[]", txt):
             return "KF-13"
     if case.get("dialect") != "non-validating" and kinds & {"upper", "swap", "mixed", "lower"} and diff == ["column_pairs"]:
         # KF-13 again: the nested run is the legacy analyzer, whose CAST(... AS type(n)) handling depends on letter case (KF-30b)
@@ -141,10 +142,16 @@ def c07(case, diff, o, v):
             return "KF-13"
     if case.get("dialect") == "non-validating":
         # the legacy sqlparse analyzer is layout sensitive in three separate ways
-        if kinds & _COMMENT_KINDS:
-            return "KF-30c"
-        if _re.search(r"union\s+all", txt, _re.I) and not _re.search(r"union all", txt, _re.I) is None or _re.search(r"union(\s{2,}|[\t\n]+\s*)all", txt, _re.I):
+        # KF-30a: anything but one blank between UNION and ALL (also a comment)
+        if _re.search(r"(?is)\bunion(?! all\b)(\s|/\*.*?\*/|--[^\n]*\n)+all\b", txt):
             return "KF-30a"
+        # KF-30c: a block comment that is the only separator between two tokens (glued to a word character on either side); comments
+        # with blanks around them, line comments and comments next to , ( ) leave the result unchanged
+        if kinds & _COMMENT_KINDS and _re.search(r"[\w\"'`\]]/\*|\*/[\w\"'`\[]", txt):
+            return "KF-30c"
+        # ... and a comment inside the INSERT (...) / VALUES (...) lists of a MERGE
+        if kinds & _COMMENT_KINDS and _re.search(r"(?is)\bmerge\b.*\b(insert|values)\s*\([^)]*(/\*|--)", txt):
+            return "KF-30c"
         if kinds & {"upper", "swap", "mixed", "lower"} and (any(m != "cast" for m in _re.findall(r"(?i)\b(cast)\s*\(", txt + " " + case.get("sql", "")))
                                                            or (_re.search(r"(?i)\bcast\s*\(", txt) and any(m != m.lower() for m in _re.findall(r"(?i)\bas\s+([a-z_]+)\s*\(", txt + " " + case.get("sql", ""))))):
             return "KF-30b"
